@@ -43,7 +43,7 @@ ASSUMPTIONS = ["the deterministic mode only interleaves at the injected yield po
                "stress mode failures are genuine but not exactly replayable: their replay file re-runs the stress case"]
 BUDGET = {"quick": 250, "thorough": 4000}
 SHARDS = {"quick": 8, "thorough": 16}
-MIN_NONTRIVIAL = {"quick": 250, "thorough": 8000}
+MIN_NONTRIVIAL = {"quick": 250, "thorough": 5000}
 TECHNIQUE = "schedule fuzzing: Hypothesis-generated interleavings replayed by a deterministic baton scheduler with injected yield points; oracle concurrent = warm-after = cold sequential"
 LEVEL_TEXT = ("Exploration: ~2000 (quick) / ~64k (thorough) generated schedules over 5 type shapes under a harness-owned scheduler, plus a "
               "real-preemption stress phase in the thorough tier; each schedule's results are compared with warm and cold sequential executions.")
